@@ -83,10 +83,21 @@ def step (s : S) (line : String) : S × String :=
     match s.ns with
     | some ns => ({ s with ns := some { ns with maxRam := 0 } }, "ok")
     | none => (s, "bad-op")
+  | "maxram" :: _ =>
+    match s.ns, argInt? ws "m" with
+    | some ns, some m => ({ s with ns := some { ns with maxRam := m } }, "ok")
+    | _, _ => (s, "bad-op")
+  | "isext" :: _ =>
+    match s.ns with
+    | some ns => (s, s!"ok ext={if ns.external then 1 else 0}")
+    | none => (s, "bad-op")
   | "write" :: _ =>
     match s.ns with
     | some ns =>
-      let (_, st, file) := ns.write s.file
+      -- nosort=1: sort(1) cannot be run. Only the external path calls it: system() fails, eslESYS, index removed.
+      let sortFails := (argNat? ws "nosort").getD 0 ≠ 0 && ns.external && !ns.written &&
+                       !(decide (ns.nsecondary > 0 ∧ ns.slen = 0)) && ns.flen ≠ 0
+      let (_, st, file) := if sortFails then (ns, some St.esys, (none : Option Bytes)) else ns.write s.file
       let bytes := file.getD []
       let hx := if bytes.length ≤ HEXLIMIT then " hex=" ++ hexOrDash bytes else ""
       let tmp := if ns.external then false else s.tmp      -- Close removes the tmp files iff external
